@@ -252,6 +252,8 @@ class Ctx:
         meta = dict(meta or {})
         if getattr(self, "exit_rel", None) is not None:
             meta.setdefault("exit", self.exit_rel)
+        if getattr(self, "pc_mark", None) is not None:
+            meta.setdefault("pc_mark", self.pc_mark)
         for part in parts:
             ob = Obligation(clause, part, list(self.pc), tuple(k for k, _ in self.trail), meta, list(self.spec_apps))
             ob.entry = getattr(self, "entry_args", None)
